@@ -15,6 +15,73 @@ use std::rc::Rc;
 
 type V = Value<f32>;
 
+mod c18ref {
+    include!("../verif_c18_reference.rs");
+}
+
+fn lexer_depth(s: &str) -> (bool, i64, usize) {
+    let lexer = Lexer::from_char_stream(s.chars());
+    let mut depth: i64 = 0;
+    let mut n = 0;
+    for tok in lexer {
+        match tok {
+            Ok(tk) => {
+                n += 1;
+                match tk.data {
+                    ruschm::parser::TokenData::LeftParen
+                    | ruschm::parser::TokenData::VecConsIntro
+                    | ruschm::parser::TokenData::ByteVecConsIntro => depth += 1,
+                    ruschm::parser::TokenData::RightParen => depth -= 1,
+                    _ => (),
+                }
+            }
+            Err(_) => return (false, depth, n),
+        }
+    }
+    (true, depth, n)
+}
+
+/// validates the C18 reference model against the real lexer on every string up to `maxlen` over the alphabet
+fn c18sweep(maxlen: usize) -> String {
+    let alpha = c18ref::VERIF_C18_ALPHABET;
+    let mut total: u64 = 0;
+    let mut accepted: u64 = 0;
+    for len in 0..=maxlen {
+        let mut idx = vec![0usize; len];
+        loop {
+            let chars: Vec<char> = idx.iter().map(|i| alpha[*i]).collect();
+            let text: String = chars.iter().collect();
+            let (ok, depth, _) = lexer_depth(&text);
+            let r = c18ref::verif_ref_depth(&chars);
+            total += 1;
+            let agree = match r {
+                Some(d) => ok && (d as i64) == depth,
+                None => !ok,
+            };
+            if ok {
+                accepted += 1;
+            }
+            if !agree {
+                return format!("OK SWEEP 0 {} {} {}", total, accepted, hex(&text));
+            }
+            // next string
+            let mut k = 0;
+            while k < len {
+                idx[k] += 1;
+                if idx[k] < alpha.len() {
+                    break;
+                }
+                idx[k] = 0;
+                k += 1;
+            }
+            if k == len {
+                break;
+            }
+        }
+    }
+    format!("OK SWEEP 1 {} {} -", total, accepted)
+}
+
 fn hex(s: &str) -> String {
     let mut o = String::new();
     for b in s.as_bytes() {
@@ -385,6 +452,15 @@ fn run_line(line: &str) -> String {
                 }
             }
             format!("OK T {} {} {}", ok as i32, depth, n)
+        }
+        "c18sweep" => c18sweep(t.int()),
+        "refdepth" => {
+            let s = unhex(t.next());
+            let cs: Vec<char> = s.chars().collect();
+            match c18ref::verif_ref_depth(&cs) {
+                Some(d) => format!("OK R 1 {}", d),
+                None => "OK R 0 0".to_string(),
+            }
         }
         "ping" => "OK pong".to_string(),
         x => format!("BADCMD {}", x),
